@@ -1,7 +1,9 @@
 #!/venv/bin/python
 # -*- coding: utf-8 -*-
-"""seeded_table.py: the tables of DESIGN.md section 4a (rounds 2 and 3) from seeded/*/meta.json and seeded/HARDENING.json.
-Rewrites the text between the markers <!-- SEEDED-TABLES-BEGIN --> and <!-- SEEDED-TABLES-END --> in DESIGN.md."""
+"""seeded_table.py: the tables of DESIGN.md section 4a (rounds 2, 3, 4 and any later one) from seeded/*/meta.json and seeded/HARDENING.json.
+Rewrites the text between the markers <!-- SEEDED-TABLES-BEGIN --> and <!-- SEEDED-TABLES-END --> in DESIGN.md.
+Same layout as the hand-written first-round table: id | change | route | detected by the check as first written?
+(the property sections of DESIGN.md say what each change needs to manifest; the full text is in seeded/<id>/meta.json)."""
 import glob
 import json
 import os
@@ -9,10 +11,44 @@ import re
 
 VERIF = os.path.dirname(os.path.dirname(os.path.abspath(__file__)))
 
+CHANGE_MAX = 170      # characters of the `summary` shown
+ADDED_MAX = 230       # characters of the HARDENING.json entry shown
+
+
+def clean(s):
+    return ' '.join(str(s).split()).replace('|', '\\|')
+
 
 def cut(s, n):
-    s = ' '.join(str(s).split()).replace('|', '\\|')
-    return s if len(s) <= n else s[:n - 2].rsplit(' ', 1)[0] + ' …'
+    """at most n characters, cut at a word boundary"""
+    s = clean(s)
+    if len(s) <= n:
+        return s
+    return s[:n - 2].rsplit(' ', 1)[0].rstrip(' ,;:(-') + ' …'
+
+
+def first_sentence(s, n):
+    """the first sentence of s if that is a reasonable cell, else s cut at n characters"""
+    s = clean(s)
+    m = re.search(r'[.;](?= [A-Z(\'"`])', s)
+    if m and 40 <= m.start() <= n:
+        return s[:m.start()]
+    return cut(s.rstrip('.'), n)
+
+
+def route(tail):
+    """P = a proof obligation stopped checking, C = model/implementation disagreements, O = oracle failures"""
+    r = []
+    m = re.search(r'theorems (\d+)/(\d+)', tail)
+    if m and m.group(1) != m.group(2):
+        r.append('P')
+    m = re.search(r'(\d+) disagreements', tail)
+    if m and int(m.group(1)) > 0:
+        r.append('C')
+    m = re.search(r'(\d+) oracle failures', tail)
+    if m and int(m.group(1)) > 0:
+        r.append('O')
+    return ', '.join(r) or '–'
 
 
 def rows(lo, hi):
@@ -22,7 +58,7 @@ def rows(lo, hi):
     for d in sorted(glob.glob(os.path.join(VERIF, 'seeded', 'c??_?'))):
         sid = os.path.basename(d)
         k = sid.split('_')[1]
-        k = int(k) if k.isdigit() else 9 + ord(k) - ord('a')       # rounds beyond the fourth are labelled a, b, ...
+        k = int(k) if k.isdigit() else 9 + ord(k) - ord('a')       # rounds beyond the fourth are labelled 9, a, b, ...
         if not (lo <= k <= hi):
             continue
         m = json.load(open(os.path.join(d, 'meta.json')))
@@ -30,31 +66,40 @@ def rows(lo, hi):
         tail = ' '.join(cr.get('tail') or [])
         stats['n'] += 1
         if cr.get('detected'):
-            if 'no-failing-input-found' in tail:
-                res = 'reported (`no-failing-input-found`)'
+            if 'no-failing-input-found' in tail or 'failing input:' not in tail:
+                res = 'reported, but without a failing input in the recorded run (`no-failing-input-found`)'
+                if sid in hard:
+                    res += ' — added first: ' + cut(re.sub(r'^see h\d+: ', '', hard[sid]), ADDED_MAX)
                 stats['nfi'] += 1
             elif sid in hard:
-                res = 'detected, with a failing input, after the check was strengthened: ' + hard[sid]
+                res = 'no — added first: ' + cut(re.sub(r'^see h\d+: ', '', hard[sid]), ADDED_MAX)
                 stats['after'] += 1
             else:
-                res = 'detected as first written, with a failing input'
+                res = 'yes'
                 stats['first'] += 1
         else:
-            res = 'NOT detected (quick exit %s)' % cr.get('quick_rc')
+            res = '**NOT detected** (quick exit %s)' % cr.get('quick_rc')
             stats['missed'] += 1
-        out.append('| %s | %s | %s | %s |' % (sid, cut(m.get('summary', ''), 330), cut(m.get('needs_to_manifest', ''), 260), res))
+        out.append('| %s | %s | %s | %s |' % (sid, first_sentence(m.get('summary', ''), CHANGE_MAX), route(tail), res))
     return out, stats
 
 
 def main():
     text = []
+    total = {'n': 0, 'first': 0, 'after': 0, 'nfi': 0, 'missed': 0}
     for title, lo, hi in (('Second round', 3, 4), ('Third round', 5, 6), ('Fourth round', 7, 8), ('Fifth round', 9, 10)):
         r, st = rows(lo, hi)
         if not r:
             continue
-        text.append('**%s: %d changes** — %d detected by the check as it stood, %d after it was strengthened, %d reported without a '
-                    'failing input, %d not detected.\n' % (title, st['n'], st['first'], st['after'], st['nfi'], st['missed']))
-        text.append('| id | change | needs | result (quick tier, from `seeded/<id>/meta.json`) |')
+        for k in total:
+            total[k] += st[k]
+        lab = lambda k: str(k) if k <= 9 else chr(ord('a') + k - 10)
+        line = '**%s (`_%s`, `_%s`): %d changes** — %d detected with a failing input by the check as it stood, %d after it was strengthened' % (
+            title, lab(lo), lab(hi), st['n'], st['first'], st['after'])
+        if st['nfi'] or st['missed']:
+            line += ', %d reported without a failing input, %d not detected' % (st['nfi'], st['missed'])
+        text.append(line + '.\n')
+        text.append('| id | change (beginning of `seeded/<id>/meta.json` `summary`) | route | detected by the check as first written? |')
         text.append('|---|---|---|---|')
         text += r
         text.append('')
@@ -68,6 +113,8 @@ def main():
         print('DESIGN.md tables rewritten')
     else:
         print(block)
+    print('rounds 2-4: %(n)d changes, %(first)d as first written, %(after)d after strengthening, %(nfi)d without failing input, '
+          '%(missed)d not detected' % total)
 
 
 if __name__ == '__main__':
